@@ -572,7 +572,7 @@ pub fn run(ctx: &Ctx, rep: &mut Report) {
         long,
         |ctx, c: &Case, acc| check(ctx, c, acc, true),
     );
-    let n = ctx.cases(120_000, 2_000_000);
+    let n = ctx.cases(120_000, 10_000_000);
     run_prop(
         ctx,
         rep,
